@@ -35,8 +35,17 @@ the statement, no luna code):
   * bounded progress: some input valid but source not valid for more than 4 consecutive cycles is a violation;
     the final drain (source always ready) must empty all inputs.
 
+Multiplexers (about a quarter of the cases, added after the coverage audit; the title names them):
+  * `StreamMultiplexer` (default / explicit stream_type; 8-bit, raw SuperSpeed, 4-bit-valid streams; 1..4 inputs) under
+    its documented assumption of one talker at a time (hand-over between inputs may be back to back): the output equals
+    the talker's valid and fields, `ready` goes to the talker and to no other input, the output is not valid without a
+    talker, accepted == forwarded in order.  Cycles with two talkers are not generated (counted unjudged if seen).
+  * `HeaderQueueDemultiplexer` (1..4 consumers, header types owned by consumers, some owned by nobody): every consumer
+    sees the sink's valid and header every cycle, sink.ready == OR of the consumers' ready, a header accepted by the
+    sink was taken by a consumer in that cycle and vice versa (no loss / duplicate), counts agree at the end.
+
 Deviation from DESIGN section 7: besides `StreamArbiter` and `HeaderQueueArbiter` the in-tree `SuperSpeedStreamArbiter`
-and the 4-bit-valid stream type are run; the latter exposes a genuine defect (findings/C26.md; mechanisms with the
+and the 4-bit-valid stream type are run; the latter exposed a genuine defect (findings/C26.md, since fixed in /repo; mechanisms with the
 suffix `_partial_valid_mask`, given only when the selected input's mask was partial at the switch).  "Next selection =
 lowest index waiting" is judged with a one-cycle decision window and a set of legitimate parking positions instead
 of the exact registered timing of the current implementation.
@@ -48,23 +57,31 @@ inputs that change payload while stalled (illegal for a stream; not generated).
 from rv.sim import Bench
 
 PROPERTY = "C26"
-CASES = {"quick": 320, "thorough": 6000}
-RULE = ("case = (arbiter kind in {StreamArbiter/StreamInterface, SuperSpeedStreamArbiter, HeaderQueueArbiter, StreamArbiter over "
+CASES = {"quick": 400, "thorough": 6000}
+RULE = ("76 % of the cases: case = (arbiter kind in {StreamArbiter/StreamInterface, SuperSpeedStreamArbiter, HeaderQueueArbiter, StreamArbiter over "
         "4-bit-valid SuperSpeedStreamInterface}, 1..4 inputs, per-input gap/burst-length profile, source ready profile, "
         "rendezvous phases, optional withdrawals), 500-2000 cycles; non-trivial = >=1 contended decision (>=2 inputs waiting when "
         "the selected one goes idle) and >=1 stalled word and >=1 higher-priority arrival during a lower-priority burst; "
-        "distinct = hash of configuration + every word and ready value driven")
+        "distinct = hash of configuration + every word and ready value driven; 14 % StreamMultiplexer cases (150-500 words, one talker "
+        "at a time, back-to-back hand-over), 10 % HeaderQueueDemultiplexer cases (60-200 headers, typed consumers)")
 REQUIRED_BINS = ["inputs_1", "inputs_2", "inputs_3", "inputs_4", "kind_stream8", "kind_ss_raw", "kind_header_queue", "kind_mask_valid",
                  "contended_decision", "simultaneous_arrival_parked", "higher_priority_arrives_mid_burst", "burst_end_while_source_stalled",
                  "one_cycle_gap_with_waiters", "parked_input_reused", "switch_to_lower_priority", "switch_to_higher_priority",
                  "stall_on_last_word", "stall_on_first_word", "idle_seen", "withdrawn_word", "burst_len_1", "burst_len_ge_8",
-                 "lowest_priority_served", "partial_valid_mask"]
+                 "lowest_priority_served", "partial_valid_mask",
+                 "kind_mux", "mux_inputs_ge_3", "mux_back_to_back_handover_lower",
+                 "mux_back_to_back_handover_higher", "mux_stall_on_last_word",
+                 "kind_demux", "demux_consumers_ge_2", "demux_accept_in_first_cycle", "demux_last_consumer_accepts",
+                 "demux_unclaimed_header_withdrawn", "demux_back_to_back", "demux_ready_without_valid"]
 REQUIRED_EVENTS = ["cycles_monitored", "words_accepted", "words_forwarded", "bursts_forwarded", "selections_judged", "idle_cycles",
-                   "hold_checks", "ready_checks"]
+                   "hold_checks", "ready_checks", "mux_cycles_monitored", "mux_words_forwarded", "demux_cycles_monitored",
+                   "demux_headers_accepted"]
 ASSUMPTIONS = ["inputs obey the stream contract (valid and payload held until ready) except for explicit, counted withdrawals of a stalled word",
                "decision cycle of the priority choice may be registered (valid set of the previous cycle) or combinational (this cycle)",
-               "an idle arbiter may stay parked on the input it served last or on any input that was the best waiter in a cycle without forwarding",
-               "for the 4-bit-valid stream type 'valid' means mask != 0"]
+               "an arbiter with no input waiting may stay parked on the input it served last; after a cycle without forwarding in which inputs waited it must be on the best waiter of that cycle (or of the following cycle, combinational decision)",
+               "for the 4-bit-valid stream type 'valid' means mask != 0",
+               "StreamMultiplexer is judged only while at most one input is valid (its documented assumption)",
+               "HeaderQueueDemultiplexer consumers assert ready only for the header type they own (documented assumption: never two at once)"]
 
 KINDS = ["stream8", "stream8", "ss_raw", "header_queue", "mask_valid"]
 
@@ -124,7 +141,287 @@ def _build(kind, n, domain):
     return Wrap(), arb, ins
 
 
+def _wrap_comb(sub):
+    """Wrapper for a purely combinational DUT: adds a dummy register so that the bench's clock domain exists."""
+    from amaranth import Elaboratable, Module, Signal
+
+    class Wrap(Elaboratable):
+        def elaborate(self, platform):
+            m = Module()
+            m.submodules.dut = sub
+            tick = Signal()
+            m.d.sync += tick.eq(~tick)
+            return m
+
+    return Wrap()
+
+
+def run_mux(rng, tier, res):
+    """StreamMultiplexer under its documented assumption (one talker at a time, hand-over may be back to back)."""
+    from luna.gateware.stream.arbiter import StreamMultiplexer
+    from luna.gateware.stream import StreamInterface
+    from luna.gateware.usb.stream import USBRawSuperSpeedStream, SuperSpeedStreamInterface
+    kind = rng.choice(["stream8", "stream8", "ss_raw", "mask_valid"])
+    cls = {"stream8": StreamInterface, "ss_raw": USBRawSuperSpeedStream, "mask_valid": SuperSpeedStreamInterface}[kind]
+    n = rng.choice([1, 2, 2, 3, 3, 4, 4])
+    mux = StreamMultiplexer() if (kind == "stream8" and rng.random() < 0.5) else StreamMultiplexer(stream_type=cls)
+    ins = [cls() for _ in range(n)]
+    for i in ins:
+        mux.add_input(i)
+    b = Bench(_wrap_comb(mux), domain="sync", freq=60e6, max_cycles=8000)
+    src = Port(mux.output, kind)
+    ports = [Port(i, kind) for i in ins]
+    for p in ports + [src]:
+        b.watch(p.valid, p.ready, *p.sigs)
+    widths = [len(x) for x in src.sigs]
+    vmask = src.vmask
+    nwords_total = rng.randint(150, 500)
+    rp = rng.choice(["always", "hi", "lo", "laststall"])
+    res.desc = {"dut": "StreamMultiplexer", "kind": kind, "inputs": n, "ready": rp, "first_bursts": []}
+    res.sig("mux", kind, n, rp)
+    res.bin("kind_mux")
+    res.bin("mux_inputs_%d" % n if n < 3 else "mux_inputs_ge_3")
+    queue = []
+    st = {"k": None, "left": 0, "word": None, "seq": 0, "done": 0, "prev_k": None, "blen": 0}
+
+    def word(k):
+        st["seq"] += 1
+        vals = []
+        for i, w in enumerate(widths):
+            if i == src.tag_pos:
+                v = k | ((st["seq"] & 0x3f) << 2)
+                if w > 8:
+                    v |= rng.getrandbits(w - 8) << 8
+            else:
+                v = rng.getrandbits(w)
+            vals.append(v)
+        vm = vmask if (vmask == 1 or rng.random() < 0.7) else rng.randint(1, vmask)
+        res.sig(k, vals, vm)
+        return tuple(vals), vm
+
+    def drive(k, wd):
+        p = ports[k]
+        if wd is None:
+            b.set(p.valid, 0)
+        else:
+            b.set(p.valid, wd[1])
+            for sig, v in zip(p.sigs, wd[0]):
+                b.set(sig, v)
+
+    def driver():
+        b.set(src.ready, 1)
+        yield
+        gap = rng.randint(0, 3)
+        while True:
+            k = st["k"]
+            if k is not None:
+                if b.get(ports[k].valid) and b.get(ports[k].ready):
+                    st["left"] -= 1
+                    st["done"] += 1
+                    if st["left"] > 0:
+                        st["word"] = word(k)
+                        drive(k, st["word"])
+                    else:
+                        drive(k, None)
+                        st["prev_k"], st["k"], st["word"] = k, None, None
+                        gap = rng.choice([0, 0, 0, 1, 2, rng.randint(0, 8)])
+                        k = None
+            if k is None:
+                if st["done"] >= nwords_total:
+                    yield
+                    yield
+                    return
+                if gap <= 0:
+                    nk = rng.randrange(n)
+                    st["k"], st["blen"] = nk, rng.choice([1, 1, 2, 3, rng.randint(1, 12)])
+                    st["left"] = st["blen"]
+                    st["word"] = word(nk)
+                    drive(nk, st["word"])
+                    if st["prev_k"] is not None and nk != st["prev_k"] and gap == 0:
+                        res.bin("mux_back_to_back_handover_lower" if nk > st["prev_k"] else "mux_back_to_back_handover_higher")
+                    if len(res.desc["first_bursts"]) < 10:
+                        res.desc["first_bursts"].append([b.cycle + 1, nk, st["blen"]])
+                gap -= 1
+            if rp == "always":
+                r = 1
+            elif rp == "hi":
+                r = int(rng.random() < 0.8)
+            elif rp == "lo":
+                r = int(rng.random() < 0.3)
+            else:
+                r = 0 if (st["k"] is not None and st["left"] == 1 and rng.random() < 0.6) else int(rng.random() < 0.85)
+            b.set(src.ready, r)
+            res.sig(r)
+            yield
+
+    def monitor(b):
+        res.event("mux_cycles_monitored")
+        V = [b.get(p.valid) for p in ports]
+        R = [b.get(p.ready) for p in ports]
+        sv, sr = b.get(src.valid), b.get(src.ready)
+        sf = tuple(b.get(x) for x in src.sigs)
+        ctx = "StreamMultiplexer kind=%s n=%d cyc=%d valid=%s ready=%s out.valid=%d out.ready=%d" % (kind, n, b.cycle, V, R, sv, sr)
+        talk = [k for k in range(n) if V[k]]
+        if len(talk) > 1:
+            res.unjudged += 1
+            return
+        if not talk:
+            if sv:
+                res.violation("mux_output_valid_without_talker", ctx)
+            return
+        k = talk[0]
+        F = tuple(b.get(x) for x in ports[k].sigs)
+        if sv != V[k] or sf != F:
+            bad = [nm for (nm, _), x, y in zip(src.fields, sf, F) if x != y] + (["valid"] if sv != V[k] else [])
+            res.violation("mux_forward_mismatch", "%s talker=%d differing fields %s" % (ctx, k, bad))
+        if R[k] != sr:
+            res.violation("mux_ready_not_passed_to_talker", "%s talker=%d" % (ctx, k))
+        for j in range(n):
+            if j != k and R[j]:
+                res.violation("mux_ready_to_other_input", "%s talker=%d other=%d" % (ctx, k, j))
+        if not sr and st["left"] == 1:
+            res.bin("mux_stall_on_last_word")
+        if V[k] and R[k]:
+            queue.append((F, V[k]))
+        if sv and sr:
+            res.event("mux_words_forwarded")
+            if not queue:
+                res.violation("mux_word_forwarded_but_not_accepted", ctx)
+            else:
+                f, vm = queue.pop(0)
+                if f != sf or vm != sv:
+                    res.violation("mux_forwarded_word_differs_from_accepted", ctx)
+        if len(queue) > 2:
+            res.violation("mux_accepted_word_not_delivered", ctx)
+            del queue[:]
+
+    b.add_driver(driver())
+    b.add_monitor(monitor)
+    b.run()
+    if b.hit_max_cycles:
+        res.violation("mux_talker_never_served", "StreamMultiplexer kind=%s n=%d: %d of %d words after %d cycles" % (kind, n, st["done"], nwords_total, b.cycle))
+    if queue:
+        res.violation("mux_accepted_word_not_delivered", "StreamMultiplexer kind=%s n=%d: %d accepted words never forwarded" % (kind, n, len(queue)))
+    res.cycles = b.cycle
+    res.nontrivial = n >= 2
+
+
+def run_demux(rng, tier, res):
+    """HeaderQueueDemultiplexer: every consumer sees the sink's valid/header; a header accepted by the sink was taken by a consumer."""
+    from luna.gateware.usb.usb3.link.header import HeaderQueueDemultiplexer, HeaderQueue
+    n = rng.choice([1, 2, 2, 3, 3, 4])
+    dmx = HeaderQueueDemultiplexer()
+    cons = [HeaderQueue() for _ in range(n)]
+    for c_ in cons:
+        dmx.add_consumer(c_)
+    b = Bench(_wrap_comb(dmx), domain="sync", freq=60e6, max_cycles=8000)
+    snk = Port(dmx.sink, "header_queue")
+    ports = [Port(c_, "header_queue") for c_ in cons]
+    for p in ports + [snk]:
+        b.watch(p.valid, p.ready, *p.sigs)
+    widths = [len(x) for x in snk.sigs]
+    nhdr = rng.randint(60, 200)
+    # header type (dw0[0:5]) -> consumer; some types are claimed by nobody
+    owner = {t: rng.randrange(n) for t in rng.sample(range(32), rng.randint(n, 12))}
+    unclaimed = [t for t in range(32) if t not in owner]
+    res.desc = {"dut": "HeaderQueueDemultiplexer", "consumers": n, "headers": nhdr, "types": sorted(owner.items())[:8]}
+    res.sig("demux", n, sorted(owner.items()))
+    res.bin("kind_demux")
+    res.bin("demux_consumers_1" if n == 1 else "demux_consumers_ge_2")
+    st = {"sent": 0, "accepted": 0, "delivered": 0}
+
+    def driver():
+        yield
+        prev_gap = None
+        for h in range(nhdr):
+            claimed = rng.random() < 0.9
+            t = rng.choice(sorted(owner)) if claimed else rng.choice(unclaimed)
+            vals = [rng.getrandbits(w) for w in widths]
+            vals[snk.tag_pos] = (vals[snk.tag_pos] & ~0x1f) | t
+            res.sig(h, vals)
+            b.set(snk.valid, 1)
+            for sig, v in zip(snk.sigs, vals):
+                b.set(sig, v)
+            st["sent"] += 1
+            delay = rng.choice([0, 0, 1, 2, rng.randint(0, 7)])
+            if claimed:
+                j = owner[t]
+                for _ in range(delay):
+                    yield
+                b.set(ports[j].ready, 1)          # the consumer takes the header in the coming cycle
+                yield
+                b.set(ports[j].ready, 0)
+                if delay == 0:
+                    res.bin("demux_accept_in_first_cycle")
+                if j == n - 1 and n > 1:
+                    res.bin("demux_last_consumer_accepts")
+            else:
+                res.bin("demux_unclaimed_header_withdrawn")
+                for _ in range(delay + 1):
+                    yield
+            gap = rng.choice([0, 0, 0, 1, 2, rng.randint(0, 5)])
+            if gap == 0:
+                res.bin("demux_back_to_back")
+            else:
+                b.set(snk.valid, 0)
+                if rng.random() < 0.3:
+                    # a consumer that signals ready while nothing is offered must not create a transfer
+                    jj = rng.randrange(n)
+                    b.set(ports[jj].ready, 1)
+                    yield
+                    b.set(ports[jj].ready, 0)
+                    res.bin("demux_ready_without_valid")
+                    gap -= 1
+                for _ in range(gap):
+                    yield
+        b.set(snk.valid, 0)
+        yield
+        yield
+
+    def monitor(b):
+        res.event("demux_cycles_monitored")
+        sv, sr = b.get(snk.valid), b.get(snk.ready)
+        sf = tuple(b.get(x) for x in snk.sigs)
+        R = [b.get(p.ready) for p in ports]
+        ctx = "HeaderQueueDemultiplexer n=%d cyc=%d sink.valid=%d sink.ready=%d consumer.ready=%s" % (n, b.cycle, sv, sr, R)
+        if sr != int(any(R)):
+            res.violation("demux_sink_ready_lost" if any(R) else "demux_sink_ready_without_consumer", ctx)
+        for j, p in enumerate(ports):
+            if b.get(p.valid) != sv:
+                res.violation("demux_consumer_valid_mismatch", "%s consumer=%d" % (ctx, j))
+            elif sv:
+                f = tuple(b.get(x) for x in p.sigs)
+                if f != sf:
+                    bad = [nm for (nm, _), x, y in zip(snk.fields, f, sf) if x != y]
+                    res.violation("demux_consumer_header_mismatch", "%s consumer=%d fields %s" % (ctx, j, bad))
+        if sv and sr:
+            st["accepted"] += 1
+            res.event("demux_headers_accepted")
+        takers = [j for j in range(n) if R[j] and b.get(ports[j].valid)]
+        if takers:
+            st["delivered"] += 1
+            if len(takers) > 1:
+                res.unjudged += 1
+        if sv and sr and not takers:
+            res.violation("demux_header_accepted_but_not_delivered", ctx)
+        if takers and not (sv and sr):
+            res.violation("demux_header_delivered_but_not_accepted", "%s takers=%s (producer keeps the header: duplicate)" % (ctx, takers))
+
+    b.add_driver(driver())
+    b.add_monitor(monitor)
+    b.run()
+    if st["accepted"] != st["delivered"]:
+        res.violation("demux_accept_deliver_count_differs", "n=%d accepted=%d delivered=%d" % (n, st["accepted"], st["delivered"]))
+    res.cycles = b.cycle
+    res.nontrivial = n >= 2
+
+
 def run_case(rng, tier, res):
+    r = rng.random()
+    if r < 0.14:
+        return run_mux(rng, tier, res)
+    if r < 0.24:
+        return run_demux(rng, tier, res)
     kind = rng.choice(KINDS)
     n = rng.choice([1, 2, 2, 3, 3, 3, 4, 4, 4])
     domain = "ss" if kind in ("header_queue", "ss_raw") else rng.choice(["sync", "usb"])
@@ -433,12 +730,14 @@ def run_case(rng, tier, res):
                 res.bin("switch_to_lower_priority" if sel > mon["last_sel"] else "switch_to_higher_priority")
             if sel == NIN - 1 and NIN > 1:
                 res.bin("lowest_priority_served")
-        # parked candidates: the input forwarded now, or (no forwarding) whatever was there plus the best waiter of this cycle
+        # parked candidates: the input forwarded now; after a cycle without forwarding in which inputs waited: the best waiter
         if sel is not None:
             mon["parked_ok"] = {sel}
             mon["last_sel"] = sel
         elif not sv and offered:
-            mon["parked_ok"].add(min(offered))
+            # nothing forwarded although inputs wait: the arbiter has to move to the best waiter of this cycle (it may not
+            # stay with the input it served last, even if that one comes back in the next cycle)
+            mon["parked_ok"] = {min(offered)}
         # ---- bins about the situation
         if sel is not None:
             s = st[sel]
